@@ -2,4 +2,5 @@
 #include <crab/domains/split_oct.hpp>
 using namespace simd;
 using D = split_oct_domain<z_number, varname_t, G_safe>;
-SIM_REGISTER_DOMAIN(oct_split_safe, D, "oct_split_safe", CAP_EXACT_EXPORT | CAP_NTOW)
+SIM_REGISTER_DOMAIN(oct_split_safe, D, "oct_split_safe",
+                    CAP_EXACT_EXPORT | CAP_NTOW | CAP_BACKWARD)
